@@ -324,6 +324,12 @@ class Check:
         if unlisted:
             # smallest input first
             unlisted.sort(key=lambda f: len(json.dumps(f)))
+            if os.environ.get("VERIF_DUMP_FAILURES"):  # debugging aid: one smallest example per signature
+                first = {}
+                for f in unlisted:
+                    first.setdefault(f["signature"], f)
+                with open(os.environ["VERIF_DUMP_FAILURES"], "w") as fh:
+                    json.dump(list(first.values()), fh, indent=1)
             replay_path = self.write_replay({"property": self.prop, "kind": "failing-input", "failure": unlisted[0],
                                              "other_failures": len(unlisted) - 1,
                                              "all_unlisted_signatures": sorted({f["signature"] for f in unlisted}),
